@@ -848,6 +848,14 @@ func (ex *exec) jnatural(n *jnode) value {
 	case jStr:
 		return iface{types.Typ[types.String], n.val}
 	case jNum:
+		if ex.jsonUseNumber {
+			// Decoder.UseNumber: the number keeps its decimal text
+			var b bytes.Buffer
+			if !n.render(&b) {
+				ex.unsupported("json.Number of a symbolic number")
+			}
+			return iface{ex.prog.namedType("encoding/json", "Number"), b.String()}
+		}
 		return iface{types.Typ[types.Float64], numToType(ex, n, types.Typ[types.Float64])}
 	case jArr:
 		sl := make([]value, len(n.arr))
